@@ -349,7 +349,13 @@ def parse_statement(line):
         tg = parse_targets(t[j + 1:].strip()[2:].strip())
         return Term("assert", (parse_operand(cond), expected, args[1] if len(args) > 1 else "", tg), t)
     if " = " in t:
-        lhs, rhs = t.split(" = ", 1)
+        if t.startswith("("):
+            # `((*_1).3: Box<dyn Iterator<Item = T>>) = …`: the place is parenthesised and its type may contain " = "
+            j0 = match_close(t, 0)
+            k0 = t.index(" = ", j0)
+            lhs, rhs = t[:k0], t[k0 + 3:]
+        else:
+            lhs, rhs = t.split(" = ", 1)
         # call terminator?  `callee(args) -> [return: bbN, unwind ...]`  (also `-> unwind continue`)
         m = re.search(r"\) -> (\[.*\]|unwind .*)$", rhs)
         if m:
